@@ -136,7 +136,16 @@ class Gen:
         if r < 0.90 and depth < 2:
             saved = list(self.ints)
             v = self.newvar()
-            if R.random() < 0.5:
+            rr = R.random()
+            if rr < 0.15:    # a loop over a generator expression (consumed item by item)
+                w = self.newvar()
+                self.ints.append(w)
+                e = self.iexpr(1)
+                c = (" if %s" % self.cond(1)) if R.random() < 0.4 else ""
+                self.ints.remove(w)
+                head = "for %s in (%s for %s in xs%s):" % (v, e, w, c)
+                self.ints.append(v)
+            elif rr < 0.5:
                 head = "for %s in xs:" % v
                 self.ints.append(v)
             else:
@@ -155,7 +164,24 @@ class Gen:
     def extra(self, depth, in_loop):
         """rarer constructs"""
         ind = lambda lines: ["    " + l for l in lines]
-        k = R.randrange(28)
+        k = R.randrange(32)
+        if k == 28:      # a mutating call whose value is used, next to reads of the same object's state
+            v, w = self.newvar(), self.newvar()
+            self.ints += [v, w]
+            form = R.choice(["%s = ys.append(%s) or len(ys)", "%s = (ys.extend([%s]), len(ys))[1]", "%s = len(ys) + (ys.pop() if ys else %s)"])
+            return ["%s = len(ys)" % v, form % (w, self.iexpr())]
+        if k == 29:      # a call made for its effect on what it is given
+            v = self.newvar()
+            self.ints.append(v)
+            return ["%s = len(ys)" % v, "grow(ys, %s)" % self.iexpr()] if R.random() < 0.5 else ["grow(ys, %s)" % self.iexpr(), "%s = len(ys)" % v]
+        if k == 30:      # mutation through the variable of a loop over a container's items
+            v = self.newvar()
+            self.ints.append(v)
+            return ["rows = [[%s, 1], [2, %s]]" % (self.iexpr(), self.iexpr()), "%s = rows[0][1]" % v, "for row in rows:"] + ind(["row[1] *= %s" % self.const()]) + ["emit(rows[0][1] + %s)" % v]
+        if k == 31:      # return / test containing a mutation
+            v = self.newvar()
+            self.ints.append(v)
+            return ["%s = len(ys)" % v, "if ys.append(%s) is None and len(ys) > %s:" % (self.iexpr(), self.const())] + ind(["emit(%s)" % v])
         if k == 25:      # alias of a fresh list that is only mutated through the alias
             v = self.newvar()
             self.ints.append(v)
@@ -250,6 +276,21 @@ class Gen:
             line = "%s, %s = %s, %s" % (v, w, self.iexpr(), self.iexpr()) if R.random() < 0.5 else "%s, %s = pair(%s)" % (v, w, self.iexpr())
             self.ints += [v, w]
             return [line]
+        if k == 2 and R.random() < 0.35:      # two-target comprehension over pairs; the variable names are re-used from one to the next (shadowing)
+            v = self.newvar()
+            saved = list(self.ints)
+            self.ints += ["ck", "cv"]
+            e = self.iexpr(1)
+            prev = [x_ for x_ in getattr(self, "comp_results", []) if x_ in saved]
+            if prev and R.random() < 0.6:     # an earlier comprehension's result inside this one: after inlining, a comprehension nested in a comprehension
+                e = "%s %s %s" % (e, R.choice("+-*"), R.choice(prev))
+            c = (" if %s" % self.cond(1)) if R.random() < 0.4 else ""
+            self.ints = saved
+            src = R.choice(["zip(xs, xs[1:])", "enumerate(xs)", "sorted(d.items())"])
+            kind = R.choice(["sum([%s for ck, cv in %s%s])", "sum(%s for ck, cv in %s%s)", "len({ck: %s for ck, cv in %s%s})"])
+            self.ints.append(v)
+            self.comp_results = getattr(self, "comp_results", []) + [v]
+            return ["%s = %s" % (v, kind % (e, src, c))]
         if k == 2:      # comprehension / reduction
             v = self.newvar()
             x = self.newvar()
@@ -417,7 +458,7 @@ class ToFString(ast.NodeTransformer):
         return node
 
 
-_VOCAB = ("min", "max", "abs", "len", "pf", "d", "xs", "sum", "chk", "pair", "any", "all", "zip", "emit", "ys", "zs", "acc", "o", "r", "cm", "str", "sorted", "ws", "vs", "ps", "qs", "ms", "both", "coll", "twice", "clip")
+_VOCAB = ("min", "max", "abs", "len", "pf", "d", "xs", "sum", "chk", "pair", "any", "all", "zip", "emit", "ys", "zs", "acc", "o", "r", "cm", "str", "sorted", "ws", "vs", "ps", "qs", "ms", "both", "coll", "twice", "clip", "grow", "rows", "row", "ck", "cv")
 
 
 class ExtractMutator(ast.NodeTransformer):
@@ -544,6 +585,8 @@ def mutate(fn):
             sites.append(("name", n))
         elif isinstance(n, (ast.Break, ast.Continue)):
             sites.append(("jump", n))
+        elif isinstance(n, ast.Name) and isinstance(n.ctx, ast.Load) and n.id in ("ck", "cv"):
+            sites.append(("compname", n))
         if isinstance(n, ast.BinOp) and isinstance(n.op, (ast.Sub, ast.Div, ast.Pow)):
             sites.append(("swapoperands", n))
         for fld in ("body", "orelse"):
@@ -577,6 +620,8 @@ def mutate(fn):
         n.func.id = "max" if n.func.id == "min" else "min"
     elif kind == "name":
         n.id = "b" if n.id == "a" else "a"
+    elif kind == "compname":
+        n.id = "cv" if n.id == "ck" else "ck"
     elif kind == "swapoperands":
         n.left, n.right = n.right, n.left
     elif kind == "jump":
@@ -656,6 +701,7 @@ def _behaviour(src):
         obj = types.SimpleNamespace(n=a + 1)
         env = {"emit": trace.append, "pf": lambda v: v * v - 1, "chk": _chk, "pair": _pair, "cm": _cm}
         exec(PRELUDE, env)
+        exec(PRELUDE_OPAQUE, env)
         try:
             env["Fr"] = _Fr
             exec(src.replace("0.5", "Fr(1, 2)"), env)   # exact arithmetic: the normaliser reasons over the reals
@@ -716,6 +762,10 @@ def clip(v):
         return 0
     w = v
     return w
+'''
+PRELUDE_OPAQUE = '''
+def grow(seq, v):
+    seq.append(v)
 '''
 _PRELUDE_HELPERS = {n.name: n for n in ast.parse(PRELUDE).body if isinstance(n, ast.FunctionDef)}
 
